@@ -166,6 +166,14 @@ Theorem C15_gate_spacing : forall calls next pre cf1 fa1 k1 post cf2 fa2 k2,
   cf1 + RECOMMENDATION_INTERVAL < cf2.
 Proof. exact gate_spacing. Qed.
 
+(* the call after a recommendation raises the next one exactly when it is more than the interval later and
+   the lead is still there: the cadence under a lasting lead is one recommendation per 61 frames *)
+Theorem C15_gate_next_call : forall calls next pre cf1 fa1 k1 cf fa o post,
+  gate_run next calls = pre ++ (cf1, fa1, Some k1) :: (cf, fa, o) :: post ->
+  (o = Some fa /\ cf1 + RECOMMENDATION_INTERVAL < cf /\ MIN_RECOMMENDATION <= fa) \/
+  (o = None /\ ~ (cf1 + RECOMMENDATION_INTERVAL < cf /\ MIN_RECOMMENDATION <= fa)).
+Proof. exact gate_next_call. Qed.
+
 (* and none is withheld *)
 Theorem C15_gate_emits : forall next cf fa, next < cf -> MIN_RECOMMENDATION <= fa ->
   gate_step next cf fa = Ok (cf + RECOMMENDATION_INTERVAL, Some fa).
